@@ -782,6 +782,11 @@ def u3_eq(rep, a, LS, RS, where):
                 rep.violation("U3", "expr_has_unique_constraint@Eq@map", "fields of %s are registered under %s" % (nm, show(block_value(m["args"][0]["body"]) or m["args"][0]["body"], 60)), "src/%s:%d" % (RM, m["l"]))
             if not (val["k"] == "mcall" and val["m"] == "has_unique_or_primary_key_constraint" and not val["args"]):
                 rep.violation("U3", "expr_has_unique_constraint@Eq@map", "the registered flag is not `f.has_unique_or_primary_key_constraint()`: %s" % show(val, 60), "src/%s:%d" % (RM, m["l"]))
+    # `let (qualified_path, _) = keys.get_key_value(column).unwrap();`: the first component is the `.0` of the lookup
+    key_paths = set()
+    for l in find(body, "let"):
+        if l["pat"]["k"] == "tuple" and l["pat"]["elems"] and l["pat"]["elems"][0]["k"] == "ident" and l.get("init") is not None and "get_key_value(" in show(l["init"], 0).replace(" ", ""):
+            key_paths.add(l["pat"]["elems"][0]["name"])
     n = 0
     for x, guards in walk_guards(body):
         if x["k"] != "assign" or path_of(x["lhs"]) not in flag:
@@ -793,7 +798,7 @@ def u3_eq(rep, a, LS, RS, where):
             if g[0] == "if" and g[1]["k"] == "binary" and g[1]["op"] in ("==", "!="):
                 s = show(g[1], 0)
                 hs = [i for i, nmx in enumerate(("Join::left_name()", "Join::right_name()")) if nmx in s]
-                if len(hs) == 1 and ".0[0]" in s.replace(" ", ""):
+                if len(hs) == 1 and (".0[0]" in s.replace(" ", "") or any((kp + "[0]") in s.replace(" ", "") for kp in key_paths)):
                     pol = g[2] if g[1]["op"] == "==" else (not g[2])
                     side = hs[0] if pol else 1 - hs[0]
         under_col = any(g[0] == "if" and g[2] is True and g[1]["k"] == "letcond" and "Expr::Column" in show(g[1]["pat"], 0) for g in guards)
